@@ -315,7 +315,7 @@ func (w *World) projectNet() map[string]interface{} {
 	m := map[string]interface{}{
 		"hasSvc": false, "stableSel": 0, "canarySvc": false, "canarySel": 0, "canaryOwned": false,
 		"ing": false, "ingWeight": -1, "ingMatch": "", "ingBackendOk": true, "ingPaths": 0,
-		"route": false, "rtStableW": -1, "rtCanaryW": -1, "rtGenRules": 0, "rtRules": 0, "rtOtherOk": true,
+		"route": false, "rtStableW": -1, "rtCanaryW": -1, "rtGenRules": 0, "rtRules": 0, "rtOtherOk": true, "rtMatch": "",
 	}
 	m["provIngress"] = w.ingressClass() != ""
 	m["provGateway"] = w.hasProvider("gateway")
@@ -383,6 +383,22 @@ func (w *World) projectNet() map[string]interface{} {
 				}
 			case canary != nil:
 				gen++
+				// what the generated canary rule matches on (the step's match kind)
+				if len(r.Matches) > 0 {
+					f := r.Matches[0]
+					switch {
+					case len(f.QueryParams) > 0:
+						m["rtMatch"] = "query"
+					case len(f.Headers) > 0 && string(f.Headers[0].Name) == "canary-by-cookie":
+						m["rtMatch"] = "cookie"
+					case len(f.Headers) > 0 && len(r.Matches) >= 2:
+						m["rtMatch"] = "header2"
+					case len(f.Headers) > 0:
+						m["rtMatch"] = "header"
+					case f.Path != nil && f.Path.Value != nil && *f.Path.Value == "/canary":
+						m["rtMatch"] = "path"
+					}
+				}
 			}
 		}
 		m["rtGenRules"] = gen
